@@ -9,6 +9,7 @@
 #include <etl/_memory/addressof.hpp>
 #include <etl/_type_traits/add_pointer.hpp>
 #include <etl/_type_traits/decay.hpp>
+#include <etl/_type_traits/is_function.hpp>
 #include <etl/_type_traits/is_invocable_r.hpp>
 #include <etl/_type_traits/is_pointer.hpp>
 #include <etl/_type_traits/is_same.hpp>
@@ -31,6 +32,18 @@ struct function_ref<Noexcept, R(Args...)> {
         , _callable{+[](void* obj, Args... args) noexcept(Noexcept) -> R {
             auto* func = reinterpret_cast<etl::add_pointer_t<F>>(obj);
             return etl::invoke_r<R>(*func, etl::forward<Args>(args)...);
+        }}
+    {
+    }
+
+    /// \brief Refers to the function itself: the pointer value is stored, not the address of the pointer object
+    /// (which may be a temporary).
+    template <typename F>
+        requires(etl::is_function_v<F> and etl::is_invocable_r_v<R, F&, Args...>)
+    function_ref(F* f) noexcept
+        : _obj(reinterpret_cast<void*>(f))
+        , _callable{+[](void* obj, Args... args) noexcept(Noexcept) -> R {
+            return etl::invoke_r<R>(*reinterpret_cast<F*>(obj), etl::forward<Args>(args)...);
         }}
     {
     }
